@@ -165,7 +165,9 @@ fn ord_main<C: ord::OrdColl>(a: &Args, tr: &mut out::Trace) {
             let text = std::fs::read_to_string(a.str("paths", "")).expect("paths file");
             let paths = ord::parse_paths(&text);
             let keys = a.num("keys", 4) as i32;
-            if a.driver == "paths" {
+            if a.driver == "paths" && a.num("triples", 0) != 0 {
+                ord::run_triples::<C>(tr, &paths, keys);
+            } else if a.driver == "paths" {
                 ord::run_paths::<C>(tr, &paths, keys, a.num("fanout", 1) != 0);
             } else {
                 ord::run_faults::<C>(tr, &paths, keys);
